@@ -460,8 +460,34 @@ func runEngine(m map[string]string) string {
 		tm := time.AfterFunc(time.Duration(ms)*time.Millisecond, cancel)
 		defer tm.Stop()
 	}
+	// heartbeat: the time this PROCESS was not running although it wanted to (a tick every 5 ms; the excess of every gap above
+	// 50 ms is added up). A machine-wide stall of seconds (seen once: one time.Sleep(3 s) of a gun took 16.7 s) lengthens the run
+	// without any doing of the code under test; the run-length verdict allows for it.
+	var stall atomic.Int64
+	hbStop := make(chan struct{})
+	hbDone := make(chan struct{})
+	go func() {
+		defer close(hbDone)
+		tk := time.NewTicker(5 * time.Millisecond)
+		defer tk.Stop()
+		last := time.Now()
+		for {
+			select {
+			case <-hbStop:
+				return
+			case <-tk.C:
+				now := time.Now()
+				if gap := now.Sub(last); gap > 50*time.Millisecond {
+					stall.Add(int64(gap - 5*time.Millisecond))
+				}
+				last = now
+			}
+		}
+	}()
 	err := eng.Run(ctx)
 	end := rec.clk.Now()
+	close(hbStop)
+	<-hbDone
 	eng.Wait()
 	e := "nil"
 	if err != nil {
@@ -471,7 +497,7 @@ func runEngine(m map[string]string) string {
 			e = "other"
 		}
 	}
-	return fmt.Sprintf("end=%d err=%s total=%d bad=%d net=%s tag=%s offs=%s seq=%s", end, e, total, rec.bad, rec.net, rec.tag, strings.Join(offs, ","), rec.render())
+	return fmt.Sprintf("end=%d stall=%d err=%s total=%d bad=%d net=%s tag=%s offs=%s seq=%s", end, stall.Load(), e, total, rec.bad, rec.net, rec.tag, strings.Join(offs, ","), rec.render())
 }
 
 // runRace: `rounds` times a FRESH profile (real constructors, never Start()ed: the first Next takes the clock reading as the
@@ -481,7 +507,11 @@ func runEngine(m map[string]string) string {
 // that lie in the future are not waited for. Observation: per kept round `<rs>/<entries>` with rs = the instant (ns since T0)
 // just before the goroutines were released; every round in which a token precedes rs or an action precedes its token is
 // kept (at most 3), and the first two rounds always.
+var raceMu sync.Mutex // one race case at a time: its goroutines spin for microseconds per round, the other cases measure time
+
 func runRace(m map[string]string) string {
+	raceMu.Lock()
+	defer raceMu.Unlock()
 	inst, _ := strconv.Atoi(m["inst"])
 	rounds, _ := strconv.Atoi(m["rounds"])
 	per, _ := strconv.Atoi(m["per"])
